@@ -831,7 +831,7 @@ impl Explorer {
                         );
                     }
                     if s.len() != m.len() || s.is_empty() != m.is_empty() || s.as_str().len() != m.len() {
-                        Self::viol(out, 1, "model-eq", format!("slot {i}: len {} vs model {}", s.len(), m.len()));
+                        Self::viol(out, 1, "model-eq", format!("slot {i}: len() {} / as_str().len() {} / is_empty() {} but String has len {} / is_empty() {}", s.len(), s.as_str().len(), s.is_empty(), m.len(), m.is_empty()));
                     }
                     if s.capacity() < s.len() {
                         Self::viol(out, 11, "capacity>=len", format!("slot {i}: capacity {} < len {}", s.capacity(), s.len()));
